@@ -15,12 +15,8 @@ from .common import Streams, RunResult, Violation, run_seed_of, jdigest
 from . import findings, shrink
 
 
-class RunTimeout(Exception):
-    pass
-
-
-def _alarm(signum, frame):
-    raise RunTimeout()
+RunTimeout = common.RunTimeout
+_alarm = common.alarm_handler
 
 
 def load_prop(pid):
